@@ -5,6 +5,7 @@ from dataclasses import dataclass, field
 import z3
 
 from .types import parse_type, is_ref, ENUMS, ENUM_MEMBERS, show
+from .qf import qforall
 from .state import (V, NONE, State, Ctx, Unsupported, PathEnd, PyRaise, BreakLoop, ContinueLoop, ReturnValue,
                     static, is_static, _key)
 from .contract import Contract, REG
@@ -93,10 +94,10 @@ class Engine(ExprMixin, BuiltinMixin):
             ys = [z3.Const(f"cgy_{decl.name()}_{p}", decl.domain(p)) if p in arrs else xs[p] for p in range(decl.arity())]
             i = z3.Int(f"cgi_{decl.name()}")
             n = xs[npos]
-            hyp = [z3.ForAll([i], z3.Implies(z3.And(i >= 0, i < n), xs[p][i] == ys[p][i])) for p in arrs]
+            hyp = [qforall([i], z3.Implies(z3.And(i >= 0, i < n), xs[p][i] == ys[p][i])) for p in arrs]
             t1, t2 = decl(*xs), decl(*ys)
             vs = xs + [ys[p] for p in arrs]
-            out.append(z3.ForAll(vs, z3.Implies(z3.And(*hyp), t1 == t2), patterns=[z3.MultiPattern(t1, t2)]))
+            out.append(qforall(vs, z3.Implies(z3.And(*hyp), t1 == t2), patterns=[z3.MultiPattern(t1, t2)]))
         return out
 
     def _functional_apps(self, f):
@@ -304,7 +305,9 @@ class Engine(ExprMixin, BuiltinMixin):
             self.oblige(st, g, "raises", f"must-raise-{exc}", loc, f"raises {exc} iff {cond}")
         if c.returns is not None:
             ret = self.coerce_to_type(st, ret, parse_type(self.ret_type(c)))
-        env_extra = {"result": ret}
+        env_extra = {"result": ret, "__ret__": ret}
+        if "result" in c.params:
+            del env_extra["result"]      # a parameter called `result`: the returned value is out()
         for gname, gsrc in c.ghost_out.items():
             lam = ast.parse(gsrc.strip(), mode="eval").body
             env_extra[gname] = static("closure", (lam, st.frames[0], self.cur_mod, self.cur_cls))
